@@ -409,6 +409,68 @@ func TestVerif_C13(t *testing.T) {
 		rep.Nontrivial(fmt.Sprintf("stall/%d/%d", nbulk, taken))
 	})
 
+	// SQLite handler after a query it could not answer (tens of thousands of ids): the
+	// session must still end when the inbound channel is closed (peer draining) or the
+	// context is cancelled
+	nQ := vk.N(4, 24)
+	vk.ParallelW(4, nQ, func(i int) {
+		db := openMemDB(t)
+		defer db.Close()
+		hctx, hcancel := context.WithCancel(ctx)
+		defer hcancel()
+		h, err := sqlite.NewSQLiteHandler(hctx, db, &sqlite.SQLiteHandlerOption{EventBulkInsertNum: 1, MaxLimit: sqlite.NoLimit})
+		if err != nil {
+			return
+		}
+		s := vk.StartSession(ctx, h, 4)
+		ids := make([]string, 33000)
+		for k := range ids {
+			ids[k] = vk.HexOf(fmt.Sprintf("c13 absent %d %d", i, k))
+		}
+		s.Put(&mocrelay.ClientReqMsg{SubscriptionID: "big", ReqFilters: []*mocrelay.ReqFilter{{IDs: ids}}})
+		for {
+			m, ok := s.Get()
+			if !ok {
+				rep.Inconclusive("C13: REQ with 33000 ids not answered")
+				s.Stop()
+				return
+			}
+			if _, is := m.(*mocrelay.ServerEOSEMsg); is {
+				break
+			}
+		}
+		stop := make(chan struct{})
+		go func() {
+			for {
+				select {
+				case <-s.Send:
+				case <-stop:
+					return
+				}
+			}
+		}()
+		defer close(stop)
+		rep.Eval(1)
+		ending := "inbound close, peer draining"
+		if i%2 == 0 {
+			s.CloseRecv()
+		} else {
+			ending = "cancel, peer draining"
+			s.Cancel()
+		}
+		if !s.WaitDone() {
+			if p := vk.ParkedInRepo(); p != nil {
+				rep.Violation("termination/serve-did-not-return/after-failed-query", "ServeNostr of the SQLite handler did not return after "+ending+" in a session whose REQ named 33000 ids", map[string]any{"parked_goroutine": p.Stack})
+			} else {
+				rep.Inconclusive("C13: SQLite session did not return after a huge REQ, no parked goroutine found")
+			}
+			s.Cancel()
+			return
+		}
+		rep.Count("sqlite_sessions_after_unanswerable_query", 1)
+		rep.Nontrivial("bigquery/" + ending)
+	})
+
 	// WebSocket clause
 	type wsCase struct {
 		sendTimeout, ping, delay time.Duration
